@@ -94,9 +94,11 @@ class DictRun:
         if case.cpu:
             return case.cpu
         tl = sum(len(s) + 1 for s in case.S)
-        base = 20 + tl // 20000
+        base = 30 + tl // 10000
         if case.big:
             base *= 4
+        if case.kind == "XBW":
+            base *= 10
         return int(base)
 
     def extract_findings(self, case, res):
